@@ -941,9 +941,14 @@ def rec_code(f):
     at = []
     for k, v in f.attributes.items():
         if isinstance(v, list):
-            at.append(_esc(k) + '*' + '+'.join(_esc(x) for x in v))
-        else:
+            at.append(_esc(k) + '*' + '+'.join(_esc(x) if isinstance(x, str) else
+                                                 f'?{type(x).__name__}:{_esc(repr(x))}' for x in v))
+        elif isinstance(v, str):
             at.append(_esc(k) + '=' + _esc(v))
+        else:
+            # an attribute value of another type is output of the code under test: encode it
+            # (the model then disagrees), never crash on it
+            at.append(_esc(k) + f'?{type(v).__name__}:' + _esc(repr(v)))
     return ','.join([_esc(f.chrom), _esc(f.type), str(int(f.location.start)),
                      str(int(f.location.end)), st, '.' if f.frame is None else str(f.frame),
                      '&'.join(at)])
@@ -1020,6 +1025,33 @@ def text_arg(text):
     return '\t'.join(ln.replace('\t', SEP) for ln in text.split('\n') if ln != '')
 
 
+def interleave_gtf(text: str) -> str:
+    """the same records with the sub-records of a gene's isoforms INTERLEAVED (as after a sort by
+    coordinate): gene line, all transcript lines in their order, then the exon / CDS / UTR / codon
+    records round-robin across the isoforms.  Header lines stay in front."""
+    head, genes = [], []
+    for ln in text.rstrip('\n').split('\n'):
+        if ln.startswith('#') or not ln.strip():
+            head.append(ln)
+            continue
+        ft = ln.split('\t')[2]
+        if ft == 'gene':
+            genes.append([ln, []])
+        elif ft == 'transcript':
+            genes[-1][1].append([ln, []])
+        else:
+            genes[-1][1][-1][1].append(ln)
+    out = list(head)
+    for gl, txs in genes:
+        out.append(gl)
+        out += [t[0] for t in txs]
+        k = 0
+        while any(k < len(t[1]) for t in txs):
+            out += [t[1][k] for t in txs if k < len(t[1])]
+            k += 1
+    return '\n'.join(out) + '\n'
+
+
 def gtf_codec(ctx, a, L, S, case_id, viol):
     """tie of the GTF codec model: the real parser / writer and the Lean parser / writer run on
     the same texts and models; direct predicates: the theorem's conclusion on the real outputs"""
@@ -1028,6 +1060,21 @@ def gtf_codec(ctx, a, L, S, case_id, viol):
     # (1) the generated text: real dump_gtf (captured before check_protein_coding) vs parseGtf
     S['gtfparse0'].append(('C11\tgtfparse\t' + text_arg(a.gtf_text()),
                            '\t'.join(L.items0), obj))
+    # (1b) the same records with the isoforms of every gene interleaved: same models
+    if any(len(g.txs) > 1 for g in a.genes) and not a.nonascii:
+        itext = interleave_gtf(a.gtf_text())
+        ip, ip_code = real_parse(itext)
+        S['gtfparse0'].append(('C11\tgtfparse\t' + text_arg(itext), ip_code, obj))
+        ctx.count('gtfcodec', 'interleaved_isoform_files')
+        if ip is None:
+            viol('a GTF whose isoform records are interleaved cannot be parsed: ' + ip_code,
+                 {'gtf': itext[:6000]})
+        elif anno_items(ip) != list(L.items0):
+            x, y = list(L.items0), anno_items(ip)
+            bad = [(p_, q_) for p_, q_ in zip(x, y) if p_ != q_][:1] or [(len(x), len(y))]
+            viol('the models parsed from a GTF depend on whether the records of a gene\'s isoforms are '
+                 'written block-wise or interleaved', {'blockwise': bad[0][0], 'interleaved': bad[0][1],
+                                                       'gtf': itext[:6000]})
     # (2) the loaded models (coding flags set): real GtfIO.write vs writeGtf
     items = anno_items(L.full)
     enc = '\t'.join(items)
